@@ -1272,6 +1272,14 @@ done:
        */
       *bin     = (unsigned char *)ares_buf_finish_str(binbuf, &mylen);
       *bin_len = mylen;
+      if (*bin == NULL) {
+        /* LCOV_EXCL_START: OutOfMemory */
+        /* An empty string still needs its terminator allocated; when that
+         * fails the buffer has not been consumed */
+        ares_buf_destroy(binbuf);
+        status = ARES_ENOMEM;
+        /* LCOV_EXCL_STOP */
+      }
     }
   }
 
